@@ -150,6 +150,16 @@ CLAIMS = {
          "registration (after the fix: commits for duplicate-dimension classes and for MoneyConverter.update); the mirror is validated by comparing "
          "the full directory dump / converter table of the real objects before and after every rejected step of random histories.",
          "6 C16", NOTE),
+ "C06": ("Lean 4 proof (conservation; exact shares without quantum; dispersal lemma: zero remainder and < 1 quantum deviation for every input and mode) + differential correspondence",
+         "Theorems (Props/C06.lean, Proofs/Allocate.lean): without a quantum every portion is exactly its share and the remainder is zero; "
+         "portions + remainder = receiver exactly, one portion per ratio, with or without dispersal; each portion is the grid value of its share "
+         "(< 1 quantum away, <= 1/2 under half modes); without dispersal |remainder| <= n quanta (n/2 under half modes); and THE dispersal "
+         "theorem: for a receiver on the grid, positive quantum, every non-empty ratio list with non-zero total and every default mode, the "
+         "dispersed result has remainder ZERO and every portion < 1 quantum from its exact share (induction over the sorted error list with "
+         "the invariant sum(remaining errors) <= -(remaining quanta), sortedness and permutation of the insertion sort proved). The receiver "
+         "is unchanged: the model is pure, the implementation side asserts it in-process. Correspondence: quantised and plain quantities, "
+         "ratio lists of length 1-8 (numbers and quantities), both flags, all 8 modes.",
+         "6 C06", NOTE),
 }
 
 def main():
